@@ -19,8 +19,8 @@ def prop_catalogue(tier):
         add("and", n, [], D=1, base=0)
     # linear: coefficient grid chosen by rule (zero-containing, mixed-sign, equal-magnitude, coprime, non-coprime), rhs symbolic
     vecs = {
-        1: [[1], [-2], [3]],
-        2: [[1, -1], [2, 2], [2, -3], [0, 1], [-1, -2]],
+        1: [[1], [-2], [3], [0]],
+        2: [[1, -1], [2, 2], [2, -3], [0, 1], [-1, -2], [0, 0]],
         3: [[1, 1, 1], [2, -3, 1], [1, -2, 0], [-1, -1, 2]],
     }
     if not q:
